@@ -1,5 +1,73 @@
 (** C18 -- client Subscribe/Close always terminate; reconnect keeps callback
     discipline.  This file holds only the property theorems, each closed by
-    [exact] of a lemma proved in Client/ClientProofs.v, with
-    [Print Assumptions] beneath. *)
-From Gnmi Require Import Base.Prelude Client.ClientModel Client.ClientCheck Client.ClientProofs.
+    [exact] of a lemma proved in Client/ClientProofs*.v, with
+    [Print Assumptions] beneath.
+
+    [step rc sc] is the transition system of ClientModel.v ([rc]: through a
+    ReconnectClient or a bare Base/Cache client; [sc]: what the transport does
+    in each attempt); [run] / [exec] quantify over all schedules of the
+    subscriber, the closer and the canceller. *)
+From Gnmi Require Import Base.Prelude Client.ClientModel Client.ClientCheck
+     Client.ClientProofs Client.ClientProofs2 Client.ClientProofs3.
+
+(** The acceptance check is sound: an accepted recording is a trace of the model. *)
+Theorem C18_accepts_sound : forall rc l tr ss,
+  model_accepts rc l tr = inr ss -> exists s, run (step rc (sc_of l)) init tr s.
+Proof. exact model_accepts_sound. Qed.
+Print Assumptions C18_accepts_sound.
+
+(** Close, once invoked on a ReconnectClient, sets [p.closed] in its next step,
+    whatever the other threads do (the step is never blocked). *)
+Theorem C18_close_takes_effect : forall sc s,
+  c_pc s = CLock -> exists s1, In (None, s1) (step true sc s) /\ r_closed s1 = true.
+Proof. exact close_takes_effect. Qed.
+Print Assumptions C18_close_takes_effect.
+
+(** From any reachable state in which Close has set [p.closed]: every
+    continuation has at most [mu sc s] steps, goes through at most one backoff
+    sleep, and cannot get stuck before Subscribe and Close have both returned. *)
+Theorem C18_close_subscribe_terminate : forall sc s,
+  reach true sc s -> r_closed s = true ->
+  forall n s', exec (step true sc) s n s' ->
+    n <= mu sc s /\
+    nsleep s' <= nsleep s + 1 /\
+    (sstep true sc s' ++ cstep true s' = [] -> s_pc s' = SFin /\ c_pc s' = CFin).
+Proof. exact close_subscribe_terminate_rc. Qed.
+Print Assumptions C18_close_subscribe_terminate.
+
+(** A bare Base/Cache client: executions are bounded, and after a Close that
+    found the transport installed nothing blocks before both calls returned. *)
+Theorem C18_close_subscribe_terminate_base : forall sc s,
+  reach false sc s ->
+  forall n s', exec (step false sc) s n s' ->
+    n <= mu sc s /\
+    (close_succeeded s -> sstep false sc s' ++ cstep false s' = [] ->
+     s_pc s' = SFin /\ c_pc s' = CFin).
+Proof. exact close_subscribe_terminate_base. Qed.
+Print Assumptions C18_close_subscribe_terminate_base.
+
+(** one_disconnect_per_attempt, reset_before_retry, resubscription after every
+    failure unless Close / cancel was called: the monitor [disc_step] (K_P, tag 3)
+    accepts every trace of the model. *)
+Theorem C18_disconnect_reset_discipline : forall rc sc tr s,
+  run (step rc sc) init tr s -> k_disc rc tr = None.
+Proof. exact model_k_disc. Qed.
+Print Assumptions C18_disconnect_reset_discipline.
+
+(** at_most_one_after_close: the monitor [after_step] (K_P, tag 5) accepts
+    every trace of the model. *)
+Theorem C18_at_most_one_after_close : forall rc sc tr s,
+  run (step rc sc) init tr s -> k_after rc tr = None.
+Proof. exact model_k_after. Qed.
+Print Assumptions C18_at_most_one_after_close.
+
+(** exactly_one_cancel: once both initDone and Close's critical section have
+    run the context is cancelled, by exactly one call of [p.cancel]; before
+    that by none. *)
+Theorem C18_exactly_one_cancel : forall sc s,
+  reach true sc s ->
+  (r_closed s = true /\ r_hascancel s = true -> ctx_r s = true /\ ncancel s = 1) /\
+  (ncancel s <= 1) /\
+  (ncancel s = 1 -> r_closed s = true /\ r_hascancel s = true).
+Proof. exact exactly_one_cancel_lemma. Qed.
+Print Assumptions C18_exactly_one_cancel.
